@@ -127,6 +127,11 @@ func (m *SigningProposalFSM) actionPartialSignConfirmationReceived(inEvent fsm.E
 		return
 	}
 
+	if request.BatchID != m.payload.SigningProposalPayload.BatchID {
+		err = fmt.Errorf("{BatchID} = {\"%s\"} is not the current signing batch", request.BatchID)
+		return
+	}
+
 	signingProposalParticipant := m.payload.SigningQuorumGet(request.ParticipantId)
 
 	if signingProposalParticipant.Status != internal.SigningAwaitPartialSigns {
